@@ -433,24 +433,27 @@ func ruleWALRELEASEONFREE(p *Program, rep *Report) {
 }
 
 func rulePAGEBOUNDS(p *Program, rep *Report) {
-	rep.Rule("PAGE-BOUNDS", 2, "in Tx.getPage the creation / lookup of a Page is dominated by id >= 2, id < end marker (snapshot for readers, allocator for the writer) and by the negative outcome of both freed-set tests")
+	rep.Rule("PAGE-BOUNDS", 2, "below Tx.getPage the creation / lookup of a Page is dominated by id >= 2, id < end marker (snapshot for readers, allocator for the writer) and by the negative outcome of both freed-set tests (guards may live in helpers and boolean predicates)")
 	v := newPageVocab(p)
-	fn := v.getPage
-	rep.Analysed(funcName(fn))
-	idParam := fn.Params[len(fn.Params)-1]
+	root := v.getPage
+	rep.Analysed(funcName(root))
+	idParam := root.Params[len(root.Params)-1]
+	isID := func(x ssa.Value) bool {
+		return pureCopyOf(p, x, func(b ssa.Value) bool { return b == ssa.Value(idParam) }, 0)
+	}
 	check := func(ins ssa.Instruction, what string) {
-		facts := p.ctxFacts(ins.Block())
+		facts := expandPredicates(p, p.ctxFacts(ins.Block()), 0)
 		var missing []string
 		lower := facts.every(func(cj conj) bool {
 			return cj.has(func(a atom) bool {
 				op, x, y, ok := cmpAtom(a)
-				return ok && op == token.GEQ && stripConv(x) == ssa.Value(idParam) && isIntConst(y, 2)
+				return ok && op == token.GEQ && isID(x) && isIntConst(y, 2)
 			})
 		})
 		upper := facts.every(func(cj conj) bool {
 			return cj.has(func(a atom) bool {
 				op, x, y, ok := cmpAtom(a)
-				if !ok || op != token.LSS || stripConv(x) != ssa.Value(idParam) {
+				if !ok || op != token.LSS || !isID(x) {
 					return false
 				}
 				f := loadedField(y)
@@ -486,19 +489,38 @@ func rulePAGEBOUNDS(p *Program, rep *Report) {
 		if len(missing) == 0 {
 			rep.OK("PAGE-BOUNDS", key, p.InstrPos(ins), "dominated by id >= 2, id < end marker, not freed (data, meta)")
 		} else {
-			rep.Bad("PAGE-BOUNDS", key, p.InstrPos(ins), what+" in Tx.getPage is not dominated by: "+strings.Join(missing, ", ")+" — a page outside the transaction's bounds, a file-internal page or an already freed page becomes accessible")
+			rep.Bad("PAGE-BOUNDS", key, p.InstrPos(ins), what+" below Tx.getPage is not dominated by: "+strings.Join(missing, ", ")+" — a page outside the transaction's bounds, a file-internal page or an already freed page becomes accessible")
 		}
 	}
-	for _, b := range fn.Blocks {
-		for _, ins := range b.Instrs {
-			switch x := ins.(type) {
-			case *ssa.Call:
-				if x.Common().StaticCallee() == v.newPage {
-					check(ins, "newPage")
+	// getPage and the helpers only it uses
+	for _, fn := range sortedFns(staticReach(p, root)) {
+		if fn != root && (exportedAPI(fn) || p.callIndex().escapes[fn]) {
+			continue
+		}
+		if fn != root {
+			only := true
+			for _, s := range p.callIndex().sites[fn] {
+				if !staticReach(p, root)[s.Parent()] {
+					only = false
 				}
-			case *ssa.Lookup:
-				if loadedField(x.X) == v.fTxPages {
-					check(ins, "lookup of tx.pages")
+			}
+			if !only {
+				continue
+			}
+		}
+		for _, b := range fn.Blocks {
+			for _, ins := range b.Instrs {
+				switch x := ins.(type) {
+				case *ssa.Call:
+					if x.Common().StaticCallee() == v.newPage {
+						rep.Analysed(funcName(fn))
+						check(ins, "newPage")
+					}
+				case *ssa.Lookup:
+					if loadedField(x.X) == v.fTxPages {
+						rep.Analysed(funcName(fn))
+						check(ins, "lookup of tx.pages")
+					}
 				}
 			}
 		}
@@ -590,17 +612,22 @@ func ruleSETBYTESBOUND(p *Program, rep *Report) {
 // silently drops committed contents.
 func ruleCHECKPOINTCOMPLETE(p *Program, rep *Report) {
 	rep.Rule("CHECKPOINT-COMPLETE", 1, "in Tx.doCheckpointWAL every iteration over the committed overwrite mapping either records the entry for copy-back (and release) or skips it under page.flags.dirty == true — no other skip condition")
-	fn := p.Method("txfile", "Tx", "doCheckpointWAL")
+	root := p.Method("txfile", "Tx", "doCheckpointWAL")
+	fn := root
 	mapping := p.FieldVar("txfile", "waLog", "mapping")
 	dirty := p.FieldVar("txfile", "pageFlags", "dirty")
-	rep.Analysed(funcName(fn))
-	// the loop: a Next instruction over a Range of the mapping
+	rep.Analysed(funcName(root))
+	// the loop: a Next instruction over a Range of the mapping, in doCheckpointWAL or a helper of it
 	var header *ssa.BasicBlock
-	for _, b := range fn.Blocks {
-		for _, ins := range b.Instrs {
-			if nx, ok := ins.(*ssa.Next); ok {
-				if rg, ok := nx.Iter.(*ssa.Range); ok && loadedField(rg.X) == mapping {
-					header = b
+	for _, f := range sortedFns(staticReach(p, root)) {
+		for _, b := range f.Blocks {
+			for _, ins := range b.Instrs {
+				if nx, ok := ins.(*ssa.Next); ok && header == nil {
+					if rg, ok := nx.Iter.(*ssa.Range); ok && loadedField(rg.X) == mapping {
+						header = b
+						fn = f
+						rep.Analysed(funcName(f))
+					}
 				}
 			}
 		}
